@@ -57,6 +57,36 @@ pub fn edgy_bytes(r: &mut Rng, n: usize) -> Vec<u8> {
     }
 }
 
+/// a walk over one iterator object (spec/Iter.tla): next()/nth(k) calls, then one consuming call
+pub fn walk_script(r: &mut Rng, nent: usize) -> Value {
+    let mut w: Vec<Value> = Vec::new();
+    let big = nent > 2048;          // long lists: only walks whose observations stay short
+    let kk = |r: &mut Rng| -> u64 {
+        match r.below(8) {
+            0 => u64::MAX - r.below(2),
+            1 => nent as u64 + r.below(2),
+            2 => (nent as u64).saturating_sub(1 + r.below(2)),
+            3 => r.edge64(),
+            4 if big => *r.pick(&[254u64, 255, 256, 65534, 65535, 65536]),
+            _ => r.below(4),
+        }
+    };
+    for _ in 0..r.below(4) {
+        if r.chance(1, 2) { w.push(json!(["next", w8(0)])); } else { let k = kk(r); w.push(json!(["nth", w8(k)])); }
+    }
+    let k = kk(r);
+    w.push(match r.below(9) {
+        0 if !big => json!(["rest", w8(0)]),
+        1 if !big => json!(["fold", w8(0)]),
+        2 | 3 => json!(["skip", w8(if big { k.max(nent as u64 - r.below(300)) } else { k })]),
+        4 | 5 => json!(["step_by", w8(if big { k.max(nent as u64 / 300 + 1) } else { k.max(1) })]),
+        6 => json!(["count", w8(0)]),
+        7 => json!(["last", w8(0)]),
+        _ => json!(["nth", w8(k)]),
+    });
+    Value::Array(w)
+}
+
 pub fn run(fam: &str, seed: u64, n: u64, x: &mut Exec, sink: &mut Sink) {
     let mut r = Rng::new(seed ^ fam.bytes().fold(0u64, |a, b| a.wrapping_mul(131).wrapping_add(b as u64)));
     sink.run(x, &json!({"op":"session","family":fam,"seed":seed}));
@@ -113,18 +143,21 @@ pub fn run(fam: &str, seed: u64, n: u64, x: &mut Exec, sink: &mut Sink) {
                 let ty = *r.pick(&["shdr", "phdr", "sym", "rel", "rela", "dyn", "u32", "u64", "versym"]);
                 let class = *r.pick(&[32u64, 64]);
                 let sz = size_of(ty, class);
-                let k = r.below(4) as usize;
+                let big = r.chance(1, 25) && sz <= 8;
+                let k = if big { *r.pick(&[255usize, 256, 257, 1000, 65535, 65536, 65537]) } else if r.chance(1, 4) { r.below(12) as usize } else { r.below(4) as usize };
                 let len = if r.chance(1, 3) { k * sz } else { k * sz + r.below(sz as u64) as usize };
                 let buf = edgy_bytes(&mut r, len);
                 let nent = len / sz;
                 let steps = 1 + r.below(5);
                 let mut script: Vec<Value> = Vec::new();
                 for _ in 0..steps {
-                    match r.below(7) {
+                    match r.below(9) {
+                        7 | 8 => { let w = walk_script(&mut r, nent); script.push(json!(["walk", w, *r.pick(&["iter", "into_iter"])])); }
                         0 => script.push(json!(["len"])),
                         1 => script.push(json!(["empty"])),
-                        2 => script.push(json!(["iter"])),
-                        3 => script.push(json!(["into_iter"])),
+                        2 if !big || k <= 1000 => script.push(json!(["iter"])),
+                        3 if !big || k <= 1000 => script.push(json!(["into_iter"])),
+                        2 | 3 => script.push(json!(["len"])),
                         _ => {
                             let i = match r.below(6) {
                                 0 => u64::MAX - r.below(3),
@@ -136,20 +169,39 @@ pub fn run(fam: &str, seed: u64, n: u64, x: &mut Exec, sink: &mut Sink) {
                         }
                     }
                 }
-                if ty == "rel" || ty == "rela" || r.chance(1, 4) {
-                    sink.run(x, &json!({"op":"iter","ty":ty,"class":class,"es":r.pick(&ES_VALUES),"buf":bytes_val(&buf)}));
+                if (!big || k <= 1000) && (ty == "rel" || ty == "rela" || r.chance(1, 4)) {
+                    let mut o = json!({"op":"iter","ty":ty,"class":class,"es":r.pick(&ES_VALUES),"buf":bytes_val(&buf)});
+                    if r.chance(2, 3) { o["walk"] = walk_script(&mut r, nent); }
+                    sink.run(x, &o);
                 }
                 sink.run(x, &json!({"op":"tbl","ty":ty,"class":class,"es":r.pick(&ES_VALUES),"buf":bytes_val(&buf),"script":script}));
             }
         }
         "strtab" => {
             let alpha: [u8; 8] = [0, 0, b'a', b'b', 0xc3, 0xa9, 0xff, b'.'];
-            for _ in 0..n {
-                let len = match r.below(4) { 0 => r.below(8), 1 => r.below(64), _ => r.below(300) } as usize;
-                let buf: Vec<u8> = (0..len).map(|_| if r.chance(1, 8) { r.next() as u8 } else { *r.pick(&alpha) }).collect();
+            for it in 0..n {
+                // 1 in 40: a constructed table holding one long NUL-free run whose length sits at a
+                // power-of-two window (a lookup must not care how long the string is)
+                let bigt = it < 9 || r.chance(1, 40);
+                let mut marks: Vec<u64> = Vec::new();
+                let buf: Vec<u8> = if bigt {
+                    let pre = r.below(6) as usize;
+                    const RUNS: [usize; 9] = [254, 255, 256, 257, 65534, 65535, 65536, 65537, 70000];
+                    let run = if it < 9 { RUNS[it as usize] } else { *r.pick(&RUNS) };
+                    let mut b: Vec<u8> = (0..pre).map(|_| *r.pick(&alpha)).collect();
+                    let ascii = r.chance(3, 4);
+                    b.extend((0..run).map(|_| if ascii { b'a' + (r.next() % 26) as u8 } else { 1 + (r.next() % 255) as u8 }));
+                    if it < 9 || r.chance(4, 5) { b.push(0); for _ in 0..r.below(4) { b.push(*r.pick(&alpha)); } }
+                    marks = vec![pre as u64, pre as u64 + 1, (pre + run - 1) as u64, (pre + run) as u64, pre as u64 + r.below(run as u64)];
+                    b
+                } else {
+                    let len = (match r.below(4) { 0 => r.below(8), 1 => r.below(64), _ => r.below(300) }) as usize;
+                    (0..len).map(|_| if r.chance(1, 8) { r.next() as u8 } else { *r.pick(&alpha) }).collect()
+                };
+                let len = buf.len();
                 sink.run(x, &json!({"op":"buf","slot":"st","bytes":bytes_val(&buf)}));
-                for _ in 0..4 {
-                    let off = edge_off(&mut r, len);
+                for q in 0..4 {
+                    let off = if bigt && q < 3 { *r.pick(&marks) } else if len > 256 && r.chance(1, 3) { *r.pick(&[255u64, 256, 257]) } else { edge_off(&mut r, len) };
                     let op = if r.chance(1, 2) { "str_get_raw" } else { "str_get" };
                     sink.run(x, &json!({"op":op,"bufslot":"st","off":w8(off)}));
                 }
